@@ -188,9 +188,10 @@ PROPS = {
         harness=[dict(bin='codecdiff', name='codecdiff', quick=['-cases', '1500'], thorough=['-cases', '60000'], search=['-cases', '20000']),
                  dict(bin='frontdiff', name='frontdiff', quick=['-facts', '{gen}/gofacts.json'], thorough=['-facts', '{gen}/gofacts.json'], search=['-facts', '{gen}/gofacts.json']),
                  storediff('storediff-all', None, (20, 30), (600, 40)),
+                 dict(bin='routesend', name='routesend', quick=['-cases', '1500'], thorough=['-cases', '20000'], search=['-cases', '6000']),
                  sysdiff('sysdiff-data', ['CreatePromise', 'CompletePromise', 'ReadPromise', 'SearchPromises', 'CreateSchedule', 'ReadSchedule', 'CreateCallback', 'ClaimTask'],
                          (15, 120), (300, 150), 'C01,C10', ['-routed', '50', '-hostile', '-known', 'F5'], (100, 150))],
-        rule='codecdiff: random string maps over an alphabet of hostile characters (all 32 control characters, quotes, backslash, slash, markup characters, DEL, U+2028/2029, RTL and combining marks, U+FFFD/U+FFFF, astral-plane characters; lengths up to ~2000) encoded by the real encoding/json and decoded through the real PromiseRecord.Promise(), compared with the Lean codec both ways (char classes counted); every case also converts a whole promise record (parameter, tags, and the value in each state a client completes a promise with: resolved, rejected, canceled; states cycle through all five) and a whole schedule record (tags, promise tags, promise parameter) and requires every field back as stored; storediff / sysdiff carry markup and non-ASCII data, headers, tags, receiver descriptions, slashes and colons in ids through the real store and coroutines and compare every stored row and every response field with the model',
+        rule='routesend: every dispatched body (the real sender worker) carries the task / the completed promise exactly as the record encodes itself - every field, 64-bit timeouts and times (2^53+1, 2^62+12345, MaxInt64-1, MaxInt64) digit for digit, markup and non-ASCII in ids, keys, tags, headers, binary data; codecdiff: random string maps over an alphabet of hostile characters (all 32 control characters, quotes, backslash, slash, markup characters, DEL, U+2028/2029, RTL and combining marks, U+FFFD/U+FFFF, astral-plane characters; lengths up to ~2000) encoded by the real encoding/json and decoded through the real PromiseRecord.Promise(), compared with the Lean codec both ways (char classes counted); every case also converts a whole promise record (parameter, tags, and the value in each state a client completes a promise with: resolved, rejected, canceled; states cycle through all five) and a whole schedule record (tags, promise tags, promise parameter) and requires every field back as stored; storediff / sysdiff carry markup and non-ASCII data, headers, tags, receiver descriptions, slashes and colons in ids through the real store and coroutines and compare every stored row and every response field with the model',
         assumptions=['text = valid UTF-8; absent and empty are equivalent for maps and blobs', 'HTTP / protobuf wire codecs (gin, protobuf, base64) are exercised by frontdiff translation-equality only, not modelled',
                      'Postgres 32-bit columns are outside the model'],
         trusted_base=['Model/Json.lean is validated against encoding/json by codecdiff'],
